@@ -92,6 +92,11 @@ func (c11) Run(t *tape.Tape, tier Tier) *Result {
 	res.Desc.Tree = spec.Expr()
 	res.Desc.Cluster = clusterDesc(sim)
 	res.Kinds = kindsOf(spec)
+	sim.ExerciseDen = 3
+	if t.Bool(1, 3) {
+		obs.Exercise(e0)
+		sim.Stats.Faults["observed-before-forwarding"]++
+	}
 	m1, p := obs.Encode(e0)
 	if p != "" {
 		res.add(Violation{Prop: "C11", Oracle: "encode-at-origin", Culprit: typeOfLayer(want[0]), Expected: "no panic", Observed: p})
